@@ -245,8 +245,12 @@ class Ctx:
                         r = json.loads(lines[at - 1])
                     except Exception:
                         r = {}
-                    g = "%s:step:%s:%s%s" % (sigprefix, r.get("sut", "?"), r.get("op", "?"),
-                                             ":panic" if r.get("panic") else "")
+                    if r.get("ev") == "step":
+                        g = "%s:step:%s:%s%s" % (sigprefix, r.get("sut", "?"), r.get("op", "?"),
+                                                 ":panic" if r.get("panic") else "")
+                    else:
+                        g = ":".join(str(x) for x in [sigprefix, r.get("ev", "?")] +
+                                     [r[k] for k in ("dir", "transport", "limitName", "class", "kind") if k in r])
                     groups.setdefault(g, []).append(at)
                 for g, ats in sorted(groups.items()):
                     ex = [lines[a - 1][:400] for a in ats[:3]]
